@@ -164,3 +164,38 @@ def run(ctx):
     # "junk costs only itself": what a rejected input leaves in a buffer must not reach the next decode
     from .c20 import thread_local_buffers
     thread_local_buffers(ctx, 'C02.8-no-leftovers-between-calls')
+    tl_borrow_not_across_parser(ctx, 'C02.8-no-borrow-across-the-parser')
+
+
+def tl_borrow_not_across_parser(ctx, rule):
+    """a RefCell kept in a thread-local is not borrowed while the (recursive, input-driven) parser runs"""
+    P = ctx.P
+    ctx.rule(rule, 'no closure that holds a borrow of thread-local state (LocalKey::with / with_borrow / with_borrow_mut) calls back into the term parser: the input decides how deep the parser nests, '
+             'the nested call asks for the same RefCell and the thread panics (BorrowMutError) instead of returning a DecodeError. A rule about what must not be there', floor=0)
+    from ..etf import DEC
+    n = 0
+    for q in sorted(ctx.F.bodies):
+        if not q.startswith('erltf::') or ctx.F.bodies[q]['kind'] != 'Closure' or '::tests::' in q or '::{closure#' not in q:
+            continue
+        parent = q.rsplit('::{closure#', 1)[0]
+        if parent not in ctx.F.bodies:
+            continue
+        PB = P.B(parent)
+        if not any(any('thread::local::LocalKey::<' in n_ and n_.rsplit('::', 1)[1].startswith('with') for n_ in callee_names(t)) for bb, t in PB.calls()):
+            continue
+        DB = P.B(q)
+        # is this closure the one handed to the LocalKey call?  (its first parameter type is the closure itself; the second the cell / its content)
+        borrows = any(any('thread::local::LocalKey::<' in n_ and n_.rsplit('::', 1)[1] in ('with_borrow', 'with_borrow_mut') for n_ in callee_names(t)) for bb, t in PB.calls())
+        if DB.b['argc'] < 2 or not ('RefCell' in DB.local_ty(2) or (borrows and DB.local_ty(2).startswith('&'))):
+            continue     # (a Cell is read and written without a borrow: nothing to trip over)
+        n += 1
+        back = [(bb, nm) for bb, t in DB.calls() for nm in callee_names(t) if bb in DB.live_blocks() and nm.startswith(DEC + 'parse_')]
+        name = parent.rsplit('::', 1)[1]
+        if back:
+            ctx.bad(rule, '%s:borrow' % name, '%s calls %s while it holds a borrow of thread-local state: a term nested in the input makes the parser come back here, '
+                    'the second borrow fails and the thread panics on input that should be refused with an error' % (name, back[0][1].rsplit('::', 1)[1]), ctx.where(DB, back[0][0]),
+                    key='SHAPE:%s:thread-local-borrow-across-parser' % parent)
+        else:
+            ctx.ok(rule, '%s:borrow' % name, 'the closure does not call the parser', ctx.where(DB))
+    if n == 0:
+        ctx.ok(rule, 'none', 'the decoder keeps no borrowed thread-local state')
